@@ -69,17 +69,46 @@ theorem squash_encloses : EncLaw Local.squash := Local.encLaw_squash
 theorem compressor_encloses (near : Int) : EncLaw (Local.compressor near) := Local.encLaw_compressor near
 theorem identity_encloses : EncLaw id := encLaw_id
 
+/-- the strategies of the index model ARE C17's models (`Hts.Model.Merge`), carried over to integer
+virtual offsets by `v ↦ (v / 65536, v % 65536)` and back by `vOff` -/
+theorem strategies_are_C17 :
+    Local.adjacent = Local.lift Hts.Model.Merge.adjacent ∧ Local.squash = Local.lift Hts.Model.Merge.squash ∧
+      ∀ near, Local.compressor near = Local.lift (Hts.Model.Merge.compressor near) :=
+  ⟨rfl, rfl, fun _ => rfl⟩
+
+/-- the bridge: a strategy of C17's model that loses no chunk (`enclosedBy`, proved for Adjacent, Squash
+and every Compressor in Hts.Lemmas.MergeEnc) satisfies `EncLaw` after the carry-over -/
+theorem encLaw_of_C17 (s : List Hts.Model.Merge.Chunk → List Hts.Model.Merge.Chunk)
+    (hs : ∀ ms, Hts.Model.Merge.SortedB ms → ∀ m, m ∈ ms → Hts.Model.Merge.enclosedBy (s ms) m) :
+    EncLaw (Local.lift s) := Local.encLaw_lift s hs
+
+/-- the two laws are different.  Losing no CHUNK (what C04 needs) implies losing no POSITION (C17's
+`*_covers`) … -/
+theorem enclosure_implies_coverage (s : List Hts.Model.Merge.Chunk → List Hts.Model.Merge.Chunk)
+    (cs : List Hts.Model.Merge.Chunk) (h : ∀ c, c ∈ cs → Hts.Model.Merge.enclosedBy (s cs) c) (p : Int)
+    (hp : Hts.Model.Merge.covers cs p) : Hts.Model.Merge.covers (s cs) p :=
+  Hts.Model.Merge.enclosed_covers s cs h p hp
+
+/-- … but not conversely: a function that cuts a chunk in two keeps every position and loses the chunk -/
+theorem coverage_does_not_imply_enclosure :
+    ∃ (s : List Hts.Model.Merge.Chunk → List Hts.Model.Merge.Chunk) (cs : List Hts.Model.Merge.Chunk),
+      Hts.Model.Merge.SortedB cs ∧ (∀ p, Hts.Model.Merge.covers cs p → Hts.Model.Merge.covers (s cs) p) ∧
+      ¬ ∀ c, c ∈ cs → Hts.Model.Merge.enclosedBy (s cs) c :=
+  Hts.Model.Merge.covers_not_enclosed
+
 /-! ### completeness of `internal.Index.Chunks` -/
 
 /-- the index after the sequence, optionally after `MergeChunks pre` -/
 def built (recs : List Rec) : Index := (addAll {} recs).1
 
 /-- `chunks_complete` for `internal.Index`: for every query `[beg, stop)` with `0 ≤ beg < stop` and
-every placed record overlapping it whose bin is among the candidate bins, `Chunks` succeeds and, after
+every placed record with a non-empty reference interval (an empty one — `End() = Pos`, a CIGAR without
+reference-consuming operation — overlaps nothing; such records are still covered by `add_never_fails`,
+`bins_inv`, `tiles_inv` and `stats_true`) overlapping it whose bin is among the candidate bins, `Chunks` succeeds and, after
 any strategy `s` with `EncLaw`, one returned chunk encloses the record's chunk; the same after
 `MergeChunks pre` for any `pre` with `EncLaw` -/
 theorem chunks_complete (recs : List Rec) (h : SortedInput recs) (r : Rec) (hr : r ∈ recs)
-    (hp : r.placed = true) (beg stop : Int) (bins : List Nat) (hb : 0 ≤ beg) (hq : beg < stop)
+    (hp : r.placed = true) (hne : r.start < r.stop) (beg stop : Int) (bins : List Nat) (hb : 0 ≤ beg) (hq : beg < stop)
     (hov : beg < r.stop) (hbin : r.bin ∈ bins)
     (pre s : List Chunk → List Chunk) (hpre : EncLaw pre) (hs : EncLaw s) :
     (∃ cs, chunks (built recs) r.rid beg stop bins = .ok cs ∧ coveredBy (s cs) r.chunk) ∧
@@ -89,10 +118,10 @@ theorem chunks_complete (recs : List Rec) (h : SortedInput recs) (r : Rec) (hr :
     rw [List.mem_reverse, List.mem_filter]; exact ⟨hr, hp⟩
   have hok := h.ok r hr
   constructor
-  · obtain ⟨cs, h1, h2, c, hc, hce⟩ := chunks_complete_cover _ _ inv.cover r hmem hok.ce (hok.pos hp) beg stop bins hb hq hov hbin
+  · obtain ⟨cs, h1, h2, c, hc, hce⟩ := chunks_complete_cover _ _ inv.cover r hmem hok.ce ⟨(hok.pos hp).1, hne⟩ beg stop bins hb hq hov hbin
     exact ⟨cs, h1, coveredBy_trans (hs cs h2 c hc) hce⟩
   · obtain ⟨cs, h1, h2, c, hc, hce⟩ := chunks_complete_cover _ _ (mergeChunks_cover pre hpre _ _ inv.cover) r hmem
-      hok.ce (hok.pos hp) beg stop bins hb hq hov hbin
+      hok.ce ⟨(hok.pos hp).1, hne⟩ beg stop bins hb hq hov hbin
     exact ⟨cs, h1, coveredBy_trans (hs cs h2 c hc) hce⟩
 
 /-! ### BAI: `bam.Index` -/
@@ -105,10 +134,11 @@ def baiBuilt (recs : List Bai.BaiRec) : Index := built (recs.map baiRec)
 
 /-- the bin law of C16 in the form needed here: the bin `Record.Bin` files a placed record under is
 listed by `OverlappingBinsFor` for every overlapping query in range -/
-theorem bai_bin_law (r : Rec) (hok : RecOK r) (hp : r.placed = true) (hbin : r.bin = Coord.binFor r.start r.stop)
+theorem bai_bin_law (r : Rec) (hok : RecOK r) (hp : r.placed = true) (hlt : r.start < r.stop)
+    (hbin : r.bin = Coord.binFor r.start r.stop)
     (beg stop : Int) (hb : 0 ≤ beg) (hq : beg < stop) (hs : stop ≤ 536870912)
     (hov1 : r.start < stop) (hov2 : beg < r.stop) : r.bin ∈ Coord.overlappingBinsFor beg stop := by
-  obtain ⟨h0, hlt⟩ := hok.pos hp
+  obtain ⟨h0, _⟩ := hok.pos hp
   have hv := hok.vstop
   simp only [validPos, Bool.and_eq_true, decide_eq_true_eq] at hv
   have := Hts.Props.C16.bai_bin_in_bins r.start.toNat r.stop.toNat beg.toNat stop.toNat
@@ -126,7 +156,7 @@ theorem bai_bin_law (r : Rec) (hok : RecOK r) (hp : r.placed = true) (hbin : r.b
 `bam.Index.Chunks` returns no error and one returned chunk encloses the record's chunk — with the
 default strategy or any `MergeStrategy` satisfying `EncLaw`, and also after `MergeChunks pre` -/
 theorem bai_chunks_complete (recs : List Bai.BaiRec) (h : SortedInput (recs.map baiRec))
-    (r : Bai.BaiRec) (hr : r ∈ recs) (hp : (baiRec r).placed = true)
+    (r : Bai.BaiRec) (hr : r ∈ recs) (hp : (baiRec r).placed = true) (hne : r.pos < r.stop)
     (beg stop : Int) (hb : 0 ≤ beg) (hq : beg < stop) (hs29 : stop ≤ 536870912)
     (hov1 : r.pos < stop) (hov2 : beg < r.stop)
     (pre s : List Chunk → List Chunk) (hpre : EncLaw pre) (hs : EncLaw s) :
@@ -135,8 +165,12 @@ theorem bai_chunks_complete (recs : List Bai.BaiRec) (h : SortedInput (recs.map 
     (∃ cs, Bai.chunks Coord.overlappingBinsFor s (mergeChunks pre (baiBuilt recs)) (baiRec r).rid beg stop = .ok cs ∧
         coveredBy cs r.chunk) := by
   have hmem : baiRec r ∈ recs.map baiRec := List.mem_map.2 ⟨r, hr, rfl⟩
-  have hbin := bai_bin_law (baiRec r) (h.ok _ hmem) hp rfl beg stop hb hq hs29 hov1 hov2
-  obtain ⟨⟨cs, h1, h2⟩, ⟨cs', h1', h2'⟩⟩ := chunks_complete (recs.map baiRec) h (baiRec r) hmem hp beg stop
+  have hbinEq : (baiRec r).bin = Coord.binFor (baiRec r).start (baiRec r).stop := by
+    show Coord.binFor r.pos (if r.stop = r.pos then r.stop + 1 else r.stop) = Coord.binFor r.pos r.stop
+    have : ¬ r.stop = r.pos := by omega
+    simp [this]
+  have hbin := bai_bin_law (baiRec r) (h.ok _ hmem) hp hne hbinEq beg stop hb hq hs29 hov1 hov2
+  obtain ⟨⟨cs, h1, h2⟩, ⟨cs', h1', h2'⟩⟩ := chunks_complete (recs.map baiRec) h (baiRec r) hmem hp hne beg stop
     (Coord.overlappingBinsFor beg stop) hb hq hov2 hbin pre s hpre hs
   constructor
   · refine ⟨s cs, ?_, h2⟩
@@ -153,9 +187,10 @@ theorem bai_error_or_empty_means_no_overlap (recs : List Bai.BaiRec) (h : Sorted
     (s : List Chunk → List Chunk) (hs : EncLaw s)
     (hans : (∃ e, Bai.chunks Coord.overlappingBinsFor s (baiBuilt recs) rid beg stop = .error e) ∨
             Bai.chunks Coord.overlappingBinsFor s (baiBuilt recs) rid beg stop = .ok []) :
-    ¬ ∃ r, r ∈ recs ∧ (baiRec r).placed = true ∧ (baiRec r).rid = rid ∧ r.pos < stop ∧ beg < r.stop := by
-  rintro ⟨r, hr, hp, hrid, hov1, hov2⟩
-  obtain ⟨⟨cs, h1, c, hc, _⟩, _⟩ := bai_chunks_complete recs h r hr hp beg stop hb hq hs29 hov1 hov2 id s encLaw_id hs
+    ¬ ∃ r, r ∈ recs ∧ (baiRec r).placed = true ∧ (baiRec r).rid = rid ∧ r.pos < r.stop ∧ r.pos < stop ∧
+      beg < r.stop := by
+  rintro ⟨r, hr, hp, hrid, hne, hov1, hov2⟩
+  obtain ⟨⟨cs, h1, c, hc, _⟩, _⟩ := bai_chunks_complete recs h r hr hp hne beg stop hb hq hs29 hov1 hov2 id s encLaw_id hs
   rw [hrid] at h1
   rcases hans with ⟨e, he⟩ | he
   · rw [he] at h1; cases h1
@@ -186,19 +221,42 @@ theorem csi_inv (ms d : Nat) (recs : List CRec) (h : CSortedInput ms d recs) :
     h.ok h.sorted (by intro a ha; cases ha)
   simpa [csiBuilt] using this
 
-/-- `add_never_fails` for CSI -/
-theorem csi_add_never_fails (ms d : Nat) (recs : List CRec) (h : CSortedInput ms d recs) :
+/-- `add_never_fails` for CSI, for the geometries Go's 64-bit position arithmetic supports
+(`minShift + 3·depth ≤ 62`, the same range `csi.ReadFrom` accepts) -/
+theorem csi_add_never_fails (ms d : Nat) (_hgeom : ms + 3 * d ≤ 62) (recs : List CRec) (h : CSortedInput ms d recs) :
     ∀ x, x ∈ (Csi.addAll Coord.reg2bin (csiNew ms d) recs).2 → x = AddRes.ok :=
   (csi_inv ms d recs h).1
 
+/-- beyond that range the code is unusable rather than wrong: for `minShift + 3·depth ≥ 64` (`csi.New(14,17)`,
+`csi.New(40,10)`) `1 << (minShift+3·depth)` is 0 on a 64-bit `int`, no position is valid and EVERY `Add`
+returns the "outside indexable range" error, leaving the index unchanged -/
+theorem csi_add_rejects_all_beyond_int64 (ms d : Nat) (hgeom : ms + 3 * d ≥ 64) (i : CIndex)
+    (hms : i.minShift = ms) (hd : i.depth = d) (r : CRec) :
+    Csi.add Coord.reg2bin i r = (i, AddRes.errRange) := by
+  have hb : Csi.posBound i.minShift i.depth = -2 := by
+    unfold Csi.posBound
+    have : ¬ (i.minShift + 3 * i.depth < 64) := by rw [hms, hd]; omega
+    simp [this]
+  have hv : (Csi.validPos i.minShift i.depth r.start && Csi.validPos i.minShift i.depth r.stop) = false := by
+    unfold Csi.validPos
+    rw [hb]
+    by_cases h1 : -1 ≤ r.start
+    · have : ¬ r.start ≤ -2 := by omega
+      simp [this]
+    · simp [h1]
+  unfold Csi.add
+  simp [hv]
+
 /-- the bin law of C16 for CSI in the form needed here -/
-theorem csi_bin_law (ms d : Nat) (hd : d ≤ 10) (r : CRec) (hok : CRecOK ms d r) (hp : r.placed = true)
+theorem csi_bin_law (ms d : Nat) (hd : d ≤ 10) (hgeom : ms + 3 * d ≤ 62) (r : CRec) (hok : CRecOK ms d r)
+    (hp : r.placed = true)
     (beg stop : Int) (hb : 0 ≤ beg) (hq : beg < stop) (hs : stop ≤ (2 : Int) ^ (ms + 3 * d))
     (hov1 : r.start < stop) (hov2 : beg < r.stop) :
     Coord.reg2bin r.start r.stop ms d ∈ Coord.reg2bins beg stop ms d := by
   obtain ⟨h0, hlt⟩ := hok.pos hp
   have hv := hok.vstop
-  simp only [Csi.validPos, Bool.and_eq_true, decide_eq_true_eq] at hv
+  simp only [Csi.validPos, Csi.posBound_of_le (show ms + 3 * d ≤ 63 by omega), Bool.and_eq_true,
+    decide_eq_true_eq] at hv
   have e : ((2 ^ (ms + 3 * d) : Nat) : Int) = (2 : Int) ^ (ms + 3 * d) := by
     rw [Int.natCast_pow]; rfl
   have := Hts.Props.C16.csi_bin_in_bins r.start.toNat r.stop.toNat beg.toNat stop.toNat ms d hd
@@ -214,7 +272,8 @@ theorem csi_bin_law (ms d : Nat) (hd : d ≤ 10) (r : CRec) (hok : CRecOK ms d r
 every query `[beg, stop)` with `0 ≤ beg < stop ≤ 2^(minShift+3·depth)` and every placed record
 overlapping it, one chunk returned by `csi.Index.Chunks` encloses the record's chunk; also after
 `MergeChunks pre` for every `pre` with `EncLaw` -/
-theorem csi_chunks_complete (ms d : Nat) (hd : d ≤ 10) (recs : List CRec) (h : CSortedInput ms d recs)
+theorem csi_chunks_complete (ms d : Nat) (hd : d ≤ 10) (hgeom : ms + 3 * d ≤ 62) (recs : List CRec)
+    (h : CSortedInput ms d recs)
     (r : CRec) (hr : r ∈ recs) (hp : r.placed = true)
     (beg stop : Int) (hb : 0 ≤ beg) (hq : beg < stop) (hs : stop ≤ (2 : Int) ^ (ms + 3 * d))
     (hov1 : r.start < stop) (hov2 : beg < r.stop)
@@ -225,7 +284,7 @@ theorem csi_chunks_complete (ms d : Nat) (hd : d ≤ 10) (recs : List CRec) (h :
   obtain ⟨_, hms, hdp, inv⟩ := csi_inv ms d recs h
   have hmem : r ∈ (recs.filter (·.placed)).reverse := by
     rw [List.mem_reverse, List.mem_filter]; exact ⟨hr, hp⟩
-  have hbin := csi_bin_law ms d hd r (h.ok r hr) hp beg stop hb hq hs hov1 hov2
+  have hbin := csi_bin_law ms d hd hgeom r (h.ok r hr) hp beg stop hb hq hs hov1 hov2
   constructor
   · exact Csi.chunks_complete_cover Coord.reg2bins Local.adjacent Local.encLaw_adjacent _ _ _ inv.cover r hmem
       beg stop (by rw [hms, hdp]; exact hbin)
@@ -236,12 +295,13 @@ theorem csi_chunks_complete (ms d : Nat) (hd : d ≤ 10) (recs : List CRec) (h :
 
 /-- an empty answer (also the answer for an unknown reference) implies that no added placed record
 overlaps the query -/
-theorem csi_empty_means_no_overlap (ms d : Nat) (hd : d ≤ 10) (recs : List CRec) (h : CSortedInput ms d recs)
+theorem csi_empty_means_no_overlap (ms d : Nat) (hd : d ≤ 10) (hgeom : ms + 3 * d ≤ 62) (recs : List CRec)
+    (h : CSortedInput ms d recs)
     (rid beg stop : Int) (hb : 0 ≤ beg) (hq : beg < stop) (hs : stop ≤ (2 : Int) ^ (ms + 3 * d))
     (hans : Csi.chunks Coord.reg2bins Local.adjacent (csiBuilt ms d recs) rid beg stop = []) :
     ¬ ∃ r, r ∈ recs ∧ r.placed = true ∧ r.rid = rid ∧ r.start < stop ∧ beg < r.stop := by
   rintro ⟨r, hr, hp, hrid, hov1, hov2⟩
-  obtain ⟨⟨c, hc, _⟩, _⟩ := csi_chunks_complete ms d hd recs h r hr hp beg stop hb hq hs hov1 hov2 id encLaw_id
+  obtain ⟨⟨c, hc, _⟩, _⟩ := csi_chunks_complete ms d hd hgeom recs h r hr hp beg stop hb hq hs hov1 hov2 id encLaw_id
   rw [hrid, hans] at hc
   cases hc
 
@@ -269,7 +329,7 @@ theorem tabix_add_never_fails (hdr : Header) (recs : List TRec) (h : SortedInput
 /-- `chunks_complete` for tabix: the `k`-th record, if placed, is covered by one chunk of the answer
 to every overlapping in-range query on its reference NAME; also after `MergeChunks pre` -/
 theorem tabix_chunks_complete (hdr : Header) (recs : List TRec) (h : SortedInput (tbxTrace hdr recs))
-    (k : Nat) (r : TRec) (hk : recs[k]? = some r) (hp : r.placed = true)
+    (k : Nat) (r : TRec) (hk : recs[k]? = some r) (hp : r.placed = true) (hne : r.start < r.stop)
     (beg stop : Int) (hb : 0 ≤ beg) (hq : beg < stop) (hs29 : stop ≤ 536870912)
     (hov1 : r.start < stop) (hov2 : beg < r.stop)
     (pre : List Chunk → List Chunk) (hpre : EncLaw pre) :
@@ -287,8 +347,9 @@ theorem tabix_chunks_complete (hdr : Header) (recs : List TRec) (h : SortedInput
     (Tabix.addAll_idx Coord.binFor recs (tbxNew hdr)).1
   have hokx := h.ok x hxmem
   have hrid := hokx.rid hpx
-  have hbin := bai_bin_law x hokx hpx (by rw [hxb, hxs, hxe]) beg stop hb hq hs29 (by omega) (by omega)
-  obtain ⟨⟨cs, h1, h2⟩, ⟨cs', h1', h2'⟩⟩ := chunks_complete (tbxTrace hdr recs) h x hxmem hpx beg stop
+  have hnex : x.start < x.stop := by rw [hxs, hxe]; exact hne
+  have hbin := bai_bin_law x hokx hpx hnex (by rw [hxb, hxs, hxe]) beg stop hb hq hs29 (by omega) (by omega)
+  obtain ⟨⟨cs, h1, h2⟩, ⟨cs', h1', h2'⟩⟩ := chunks_complete (tbxTrace hdr recs) h x hxmem hpx hnex beg stop
     (Coord.overlappingBinsFor beg stop) hb hq (by omega) hbin pre Local.adjacent hpre Local.encLaw_adjacent
   have hcast : ((x.rid.toNat : Nat) : Int) = x.rid := by omega
   constructor
@@ -306,9 +367,10 @@ theorem tabix_error_or_empty_means_no_overlap (hdr : Header) (recs : List TRec)
     (hs29 : stop ≤ 536870912)
     (hans : (∃ e, Tabix.chunks Coord.overlappingBinsFor Local.adjacent (tbxBuilt hdr recs) name beg stop = .error e) ∨
             Tabix.chunks Coord.overlappingBinsFor Local.adjacent (tbxBuilt hdr recs) name beg stop = .ok []) :
-    ¬ ∃ (k : Nat) (r : TRec), recs[k]? = some r ∧ r.placed = true ∧ r.name = name ∧ r.start < stop ∧ beg < r.stop := by
-  rintro ⟨k, r, hk, hp, hn, hov1, hov2⟩
-  obtain ⟨⟨cs, h1, c, hc, _⟩, _⟩ := tabix_chunks_complete hdr recs h k r hk hp beg stop hb hq hs29 hov1 hov2 id encLaw_id
+    ¬ ∃ (k : Nat) (r : TRec), recs[k]? = some r ∧ r.placed = true ∧ r.name = name ∧ r.start < r.stop ∧
+      r.start < stop ∧ beg < r.stop := by
+  rintro ⟨k, r, hk, hp, hn, hne, hov1, hov2⟩
+  obtain ⟨⟨cs, h1, c, hc, _⟩, _⟩ := tabix_chunks_complete hdr recs h k r hk hp hne beg stop hb hq hs29 hov1 hov2 id encLaw_id
   rw [hn] at h1
   rcases hans with ⟨e, he⟩ | he
   · rw [he] at h1; cases h1
@@ -326,15 +388,16 @@ def exBai : List Bai.BaiRec :=
     ⟨true, 0, 16000, 16500, false, false, ⟨150, 200⟩⟩,
     ⟨false, -1, -1, 0, true, true, ⟨200, 250⟩⟩,
     ⟨true, 2, 5, 40000, false, true, ⟨250, 300⟩⟩,
-    ⟨true, 2, 20000, 20001, true, true, ⟨300, 65536⟩⟩ ]
+    ⟨true, 2, 20000, 20001, true, true, ⟨300, 65536⟩⟩,
+    ⟨true, 2, 32768, 32768, false, false, ⟨65536, 65600⟩⟩ ]   -- CIGAR `5I`: End() = Pos, at a tile edge
 
 example : SortedInput (exBai.map baiRec) := by decide
-example : (addAll {} (exBai.map baiRec)).2 = [.ok, .ok, .ok, .ok, .ok] := by decide
+example : (addAll {} (exBai.map baiRec)).2 = [.ok, .ok, .ok, .ok, .ok, .ok] := by decide
 /-- the theorem applied: the tile-straddling record is found by a query inside its second tile -/
 example : ∃ cs, Bai.chunks Coord.overlappingBinsFor Local.adjacent (baiBuilt exBai) 0 16400 16450 = .ok cs ∧
     coveredBy cs ⟨150, 200⟩ :=
   (bai_chunks_complete exBai (by decide) ⟨true, 0, 16000, 16500, false, false, ⟨150, 200⟩⟩ (by decide) (by decide)
-    16400 16450 (by decide) (by decide) (by decide) (by decide) (by decide) id Local.adjacent encLaw_id
+    (by decide) 16400 16450 (by decide) (by decide) (by decide) (by decide) (by decide) id Local.adjacent encLaw_id
     adjacent_encloses).1
 example : EncLaw (Local.compressor (-1)) := compressor_encloses (-1)
 
@@ -348,7 +411,7 @@ example : SortedInput (tbxTrace {} exTbx) := by decide
 example : (tbxBuilt {} exTbx).names = [[99, 104, 114, 49], [99, 104, 114, 50]] := by decide
 example : ∃ cs, Tabix.chunks Coord.overlappingBinsFor Local.adjacent (tbxBuilt {} exTbx) [99, 104, 114, 50] 39000 39500
     = .ok cs ∧ coveredBy cs ⟨250, 300⟩ :=
-  (tabix_chunks_complete {} exTbx (by decide) 3 _ rfl (by decide) 39000 39500 (by decide) (by decide) (by decide)
+  (tabix_chunks_complete {} exTbx (by decide) 3 _ rfl (by decide) (by decide) 39000 39500 (by decide) (by decide) (by decide)
     (by decide) (by decide) id encLaw_id).1
 
 /-- a small CSI geometry (minShift 4, depth 2: positions below 1024) with a record over two finest bins -/
@@ -357,7 +420,7 @@ def exCsi : List Csi.CRec :=
     ⟨0, 128, 290, ⟨524300, 600000⟩, true, false⟩, ⟨3, 1021, 1022, ⟨600000, 600001⟩, true, true⟩ ]
 example : Csi.CSortedInput 4 2 exCsi := by decide
 example : coveredBy (Csi.chunks Coord.reg2bins Local.adjacent (csiBuilt 4 2 exCsi) 0 2 3) ⟨2309, 524288⟩ :=
-  (csi_chunks_complete 4 2 (by decide) exCsi (by decide) ⟨0, 0, 17, ⟨2309, 524288⟩, true, true⟩ (by decide)
+  (csi_chunks_complete 4 2 (by decide) (by decide) exCsi (by decide) ⟨0, 0, 17, ⟨2309, 524288⟩, true, true⟩ (by decide)
     (by decide) 2 3 (by decide) (by decide) (by decide) (by decide) (by decide) id encLaw_id).1
 
 end Hts.Props.C04
